@@ -15,6 +15,10 @@ P3_EXCEPTIONS = {
 
 
 def run(ctx):
+    from ..persist import rule_P12k
+    rule_P12k(ctx)      # ordered members are never rebuilt from the (alphabetical) group names
+    from ..pathrules import rule_T2_publish
+    rule_T2_publish(ctx)      # a half-finished checkpoint update is never published
     prog = ctx.program
     S = prog.cls('Sampler')
     init = prog.func('Sampler.__init__')
